@@ -21,6 +21,7 @@ for d in sorted(glob.glob('/verif/seeded/*/')):
         return out
     own, other = uniq(own), uniq(other)
     verdict = 'caught' if own else ('caught under another property only' if other else 'MISSED')
+    if m.get('superseded'): verdict = 'superseded by a fix (see meta.json)'
     needs = m.get('trigger', '')
     needs = needs if len(needs) < 160 else needs[:157] + '...'
     rows.append('| %s | %s | %s | %s | %s |' % (sid, m.get('title', '').replace('|', '/'), ', '.join(own) or '-', ', '.join(other) or '-', verdict))
